@@ -108,6 +108,7 @@ def run(chk):
     model_dist = []
     impl_nontrivial = []
     for wi in range(50 if quick else 600):
+        rng.seed("%d/c06-1/%d" % (chk.seed, wi))      # every world has its own stream: families do not disturb each other
         kind = rng.choice(["subducting plate", "fault"])
         f = g.line_feature("line", kind, False, straight=True, uniform_sections=True, allow_mass_conserving=False)
         for k in ("temperature models", "composition models", "grains models", "velocity models", "sections"):
@@ -190,6 +191,7 @@ def run(chk):
     from worlds import line_world
     from qgen import line_query
     for wi in range(20 if quick else 250):
+        rng.seed("%d/c06-2/%d" % (chk.seed, wi))      # every world has its own stream: families do not disturb each other
         wj, sph, f = line_world(rng, spherical=True, straight=True, uniform_sections=True, allow_mass_conserving=False, extra_area=0.0)
         for k in ("temperature models", "grains models", "velocity models", "sections"):
             f.pop(k, None)
